@@ -27,7 +27,7 @@ def errName : Err → String
   | .badPrefix => "bad-prefix" | .noNbf => "no-nbf" | .noExp => "no-exp" | .noNonce => "no-nonce"
   | .noReq => "no-req" | .parseNbf => "parse-nbf" | .parseExp => "parse-exp"
   | .decodeNonce => "decode-nonce" | .nbfInvalid => "nbf-invalid" | .expInvalid => "exp-invalid"
-  | .decodeReq => "decode-req" | .panicNonceLen => "panic-nonce-len" | .openFail => "open-fail"
+  | .nonceLen => "nonce-len" | .decodeReq => "decode-req" | .openFail => "open-fail"
   | .parseUrl => "parse-url" | .pathMismatch => "path-mismatch"
 
 /-- url.Parse as a table lookup; a plaintext outside the table is reported as `parse-url`
